@@ -241,7 +241,7 @@ func TestC11(t *testing.T) {
 		}
 		n++
 		ln := lns[cs.Split]
-		cl := client.New().SetDial(func(string) (net.Conn, error) { return ln.Dial() }).SetTimeout(time.Second)
+		cl := client.New().SetDial(func(string) (net.Conn, error) { return ln.Dial() }).SetTimeout(20 * time.Second) // guards against a wedged server only
 		route := cs.Source
 		if viaBody && (cs.Source == "json" || cs.Source == "xml" || cs.Source == "cbor" || cs.Source == "form" || cs.Source == "multipart") {
 			route = "body-" + cs.Source
@@ -302,6 +302,10 @@ func TestC11(t *testing.T) {
 				if cs.Source == "multipart" {
 					rq.AddFileWithReader("f.txt", io.NopCloser(strings.NewReader("FILE")))
 				}
+			}
+			if st.Op == "send" && !st.Asserted {
+				// a value the source cannot carry (a line break in a header) may leave the server waiting for the rest of a request
+				rq.SetTimeout(time.Second)
 			}
 			resp, err := rq.Post("http://bind.test/bind/" + route + "/" + st.Mode)
 			rq = cl.R()
